@@ -309,6 +309,63 @@ func runC35(t *testing.T, tp *simrt.Tape, keepTrace bool) hx.Result {
 			})
 		}
 	}
+	// The state vacuum works on: one member of the compound shard is tombstoned
+	// (sidecar) and has since been indexed into a simple shard of its own. Re-merging
+	// the compound shard (drops the tombstoned data) and exploding it are enumerated
+	// too: the sidecar is what keeps the repository from being visible twice.
+	if ok && tp.Gen(2) == 0 {
+		comp, _ := filepath.Glob(filepath.Join(mergedDir, "compound-*.zoekt"))
+		if len(comp) == 1 {
+			vac := filepath.Join(base, "vacuum-start")
+			c35Copy(mergedDir, vac)
+			compName := filepath.Base(comp[0])
+			tomb := tp.Gen(len(ids))
+			if err := index.SetTombstone(filepath.Join(vac, compName), ids[tomb]); err != nil {
+				return hx.Result{HarnessErr: "set tombstone: " + err.Error()}
+			}
+			for _, f := range c35Ls(start) {
+				if strings.HasPrefix(f, inputs[tomb]) {
+					b, _ := os.ReadFile(filepath.Join(start, f))
+					os.WriteFile(filepath.Join(vac, f), b, 0o644)
+				}
+			}
+			if d := c35Observe(vac).duplicates(); len(d) > 0 {
+				return hx.Result{HarnessErr: fmt.Sprintf("vacuum start state has duplicates: %v", d)}
+			}
+			desc += fmt.Sprintf(" vacuum: %s tombstoned in %s and re-indexed", inputs[tomb], compName)
+			okState := func(st c35State, dir string, wantCompound bool) string {
+				for i, id := range ids {
+					w := st.where[id]
+					if len(w) != 1 {
+						return fmt.Sprintf("repository %d is in %v, expected exactly one shard", id, w)
+					}
+					if i == tomb && strings.HasPrefix(w[0], "compound-") {
+						return fmt.Sprintf("the tombstoned repository %d is alive in %v", id, w)
+					}
+					if i != tomb && wantCompound != strings.HasPrefix(w[0], "compound-") {
+						return fmt.Sprintf("repository %d is in %v", id, w)
+					}
+				}
+				return ""
+			}
+			enumerate("remerge", vac, func(dir string) (string, error) {
+				return merge(dir, []string{filepath.Join(dir, compName)})
+			}, func(st c35State, dir string, out string) string {
+				if out == "" {
+					return "merge returned no compound shard path and no error"
+				}
+				return okState(st, dir, len(ids) > 1)
+			})
+			enumerate("explode-tombstoned", vac, func(dir string) (string, error) {
+				return "", index.Explode(dir, filepath.Join(dir, compName))
+			}, func(st c35State, dir string, out string) string {
+				if _, err := os.Stat(filepath.Join(dir, compName)); err == nil {
+					return "compound shard still exists"
+				}
+				return okState(st, dir, false)
+			})
+		}
+	}
 	res.Sample = map[string]any{"scenario": desc, "executions": res.Evals}
 	res.Nontrivial = res.Evals > 2
 	res.Hash = hx64(desc)
